@@ -597,6 +597,13 @@ class _Expr:
             if len(a.t) != len(b.t):
                 return z3.BoolVal(False)
             return z3.And(*[self.equal(node, st, x, y) for x, y in zip(a.t, b.t)]) if a.t else z3.BoolVal(True)
+        if self.proc.locals.get('$seq_eq_pyeq') and 'tup' in (ak, bk) and ak in ('seq', 'tup', 'list') and bk in ('seq', 'tup', 'list'):
+            # tuple == : same length and element-wise (identity or ==); one side has a statically known length
+            fixed, other = (a, b) if ak == 'tup' else (b, a)
+            so, eo = self.seqterm(st, other, node)
+            if eo.kind != 'obj':
+                raise Unsupported(node, '== of %r and %r' % (a.ty, b.ty))
+            return z3.And(Length(so) == len(fixed.t), *[py_eq(so[i], box(x)) for i, x in enumerate(fixed.t)])
         if ak in ('seq', 'tup', 'list') and bk in ('seq', 'tup', 'list'):
             sa, ea = self.seqterm(st, a, node)
             sb, eb = self.seqterm(st, b, node)
@@ -1096,14 +1103,21 @@ class _Contracts:
             raise Unsupported(node, 'opaque call %s has no model' % text)
         out = []
         exprs = [a for a in node.args]
+        star = None
+        if exprs and isinstance(exprs[-1], ast.Starred):
+            star = exprs.pop().value        # f(a, b, *rest): the handler receives V(Ty('star'), <sequence term>) last
         if any(isinstance(a, ast.Starred) for a in exprs) or node.keywords:
             raise Unsupported(node, 'opaque call arguments')
         if recv is None and isinstance(node.func, ast.Name):
             fv = [st.env[node.func.id]] if node.func.id in st.env else []
         else:
             fv = [recv] if recv is not None else []
-        for s, vs in self.ev_list(exprs, st):
-            out.extend(h(self, node, s, fv + list(vs)))
+        for s, vs in self.ev_list(exprs + ([star] if star is not None else []), st):
+            vs = list(vs)
+            if star is not None:
+                sv = vs.pop()
+                vs.append(V(Ty('star'), self.seqterm(s, sv, node)[0]))
+            out.extend(h(self, node, s, fv + vs))
         return out
 
 
@@ -1282,6 +1296,13 @@ class _Stmts:
                             cur = self.listval(s2, base.t)
                             self.oblige(s2, 'del-last-nonempty@%s' % stmt.lineno, Length(cur) > 0, 'safety', stmt)
                             self.set_listval(s2, base.t, SubSeq(cur, 0, Length(cur) - 1))
+                        elif base.ty.kind == 'list' and not _maybe_negative(tgt.slice):
+                            cur = self.listval(s2, base.t)
+                            i = self.coerce(idx, INT, s2).t
+                            n = Length(cur)
+                            self.oblige(s2, 'del-index-in-bounds@%s' % stmt.lineno, z3.And(0 <= i, i < n), 'safety', stmt)
+                            s2.assume(z3.And(0 <= i, i < n))
+                            self.set_listval(s2, base.t, Concat(SubSeq(cur, 0, i), SubSeq(cur, i + 1, n - i - 1)))
                         else:
                             raise Unsupported(stmt, 'del on %r' % (base.ty,))
                         nxt.append((s2, Out(FALL)))
@@ -1317,10 +1338,13 @@ class _Stmts:
                 # result[i:i] = seq   (insertion)
                 if base.ty.kind != 'list':
                     raise Unsupported(tgt, 'slice assignment')
-                (s2, lo), = self.ev(tgt.slice.lower, st)
-                (s3, hi), = self.ev(tgt.slice.upper, st)
                 cur = self.listval(st, base.t)
                 ins, _ = self.seqterm(st, v, tgt)
+                if tgt.slice.lower is None and tgt.slice.upper is None:
+                    self.set_listval(st, base.t, ins)          # lst[:] = seq
+                    return
+                (s2, lo), = self.ev(tgt.slice.lower, st)
+                (s3, hi), = self.ev(tgt.slice.upper, st)
                 lo_t, hi_t = self.coerce(lo, INT).t, self.coerce(hi, INT).t
                 self.oblige(st, 'slice-assign-bounds@%s' % tgt.lineno,
                             z3.And(0 <= lo_t, lo_t <= hi_t, hi_t <= Length(cur)), 'safety', tgt)
@@ -1350,6 +1374,7 @@ class _Stmts:
                     self.assign(e, x, st)
             else:
                 sq, et = self.seqterm(st, v, tgt)
+                self.oblige(st, 'unpack-arity@%s' % getattr(tgt, 'lineno', 0), Length(sq) == len(tgt.elts), 'safety', tgt)
                 st.assume(Length(sq) == len(tgt.elts))
                 for k, e in enumerate(tgt.elts):
                     self.assign(e, V(et, sq[k]), st)
